@@ -26,6 +26,7 @@ import KafkaVerif.Spec.Crc
 import KafkaVerif.Spec.KafkaWire
 import KafkaVerif.Spec.KafkaSchemas
 import KafkaVerif.Spec.KafkaParse
+import KafkaVerif.Gen.Routing
 
 namespace KV.OracleC04
 open KV KV.Codec
@@ -538,12 +539,73 @@ def stepLegRead (i ver body impl : String) : String :=
     | _ => answer "golden-decode-fails" false
   | _, _ => "bad-case"
 
+
+/-- the library's version range of an API: the range of its registered REQUEST type (protocol.go apiType.minVersion / maxVersion) -/
+def libRange (m : RawMsg) : Option (Int × Int) :=
+  match findStruct m.structs m.root >>= versionRange with
+  | some (mn, mx, _) => some (mn, mx)
+  | none => none
+
+def libRangeOfKey (k : Nat) : Option (Int × Int) :=
+  (Gen.schemas.find? fun m => m.apiKey == k && m.isRequest && !m.override).bind libRange
+
+/-- monitor of the header-version clause: with a common version, the chosen one is inside both ranges (in particular not above
+what the broker advertised) -/
+def versionOk (cmin cmax bmin bmax r : Int) : Bool :=
+  if cmin ≤ bmax ∧ bmin ≤ cmax then decide (bmin ≤ r ∧ r ≤ bmax ∧ cmin ≤ r ∧ r ≤ cmax) else true
+
+/-- `selver <i> <bmin> <bmax> => <v>`: protocol.ApiKey(k).SelectVersion(bmin, bmax) vs Gen.Routing.selectVersionSrc -/
+def stepSelVer (i bmin bmax impl : String) : String :=
+  match i.toNat?, bmin.toInt?, bmax.toInt? with
+  | some idx, some b0, some b1 =>
+    match Gen.schemas[idx]? >>= libRange with
+    | some (c0, c1) =>
+      let r := KV.Gen.Routing.selectVersionSrc c0 c1 b0 b1
+      answer (toString r) (impl == toString r && versionOk c0 c1 b0 b1 r)
+    | none => "bad-case"
+  | _, _, _ => "bad-args"
+
+/-- `tver <api key> <advertised max> => <v,v,…>`: versions seen in request headers on the Transport path against a broker that
+advertised [0, max] for the API -/
+def stepTVer (key adv impl : String) : String :=
+  match key.toNat?, adv.toInt? with
+  | some k, some a =>
+    match libRangeOfKey k with
+    | some (c0, c1) =>
+      let r := KV.Gen.Routing.selectVersionSrc c0 c1 0 a
+      answer (toString r) (impl == toString r && versionOk c0 c1 0 a r)
+    | none => "bad-case"
+  | _, _ => "bad-args"
+
+
+/-- struct fields whose tag says `compact` for versions at which the MESSAGE is not flexible (no tagged-field marker in its root
+struct yet).  The codec never reads the `compact` option (compactness follows the message's flexibility), so such a tag has no
+effect on the wire — it is misleading metadata; listed for the audit. -/
+def flexFromOf (m : RawMsg) : Int :=
+  match findStruct m.structs m.root >>= versionRange with
+  | some (_, _, fl) => fl
+  | none => -1
+
+def compactOffenders (m : RawMsg) (s : RawStruct) (f : RawField) : List String :=
+  let ff : Int := flexFromOf m
+  match fieldAlts f with
+  | some alts => alts.filterMap fun (a : STag) =>
+      if a.compact && (decide (ff < 0) || decide (a.minV < ff)) then
+        some s!"{m.pkg}.{s.name}.{f.name}:v{a.minV}-v{a.maxV}(flexible-from:{ff})" else none
+  | none => []
+
+def compactLint : List String :=
+  Gen.schemas.flatMap fun m => m.structs.flatMap fun s => s.fields.flatMap fun f => compactOffenders m s f
+
 def step (line : String) : String :=
   match line.splitOn " => " with
   | [req, impl] =>
     match words req with
     | ["mal", pi, ver, hexes] => if pi.startsWith "P" then stepPipe pi ver hexes impl else stepMain line
     | ["legread", i, ver, _name, body] => stepLegRead i ver body impl
+    | ["lint", "compact"] => answer (",".intercalate compactLint) true
+    | ["selver", i, b0, b1] => stepSelVer i b0 b1 impl
+    | ["tver", k, a] => stepTVer k a impl
     | "marshal" :: j :: ver :: rest => stepMarshal "marshal" j ver rest impl
     | "unmarshal" :: j :: ver :: rest => stepMarshal "unmarshal" j ver rest impl
     | _ => stepMain line
